@@ -8,6 +8,7 @@ import (
 	"sort"
 	"strconv"
 	"strings"
+	"syscall"
 
 	"github.com/elastic/go-libaudit/v2/auparse"
 	"github.com/elastic/go-libaudit/v2/rule"
@@ -528,6 +529,67 @@ func forRuleSpecs(c *enumx.Ctx, visit func(c *enumx.Ctx, s spec)) {
 		}
 		visit(c, spec{List: "exit", Action: "always", Syscalls: []string{sc}})
 	}
+	// (h) the same text in two places: key filters and -k keys over {a, b} in every arrangement - a rule
+	// whose last filter is -F key=a and whose -k key is a, too, still carries both triples
+	base := []filt{{false, "key", "=", "a"}, {false, "key", "=", "b"}, {false, "uid", "=", "0"}, {false, "key", "!=", "a"}}
+	var arrangements [][]filt
+	for _, x := range base {
+		arrangements = append(arrangements, []filt{x})
+		for _, y := range base {
+			arrangements = append(arrangements, []filt{x, y})
+			for _, z := range base {
+				arrangements = append(arrangements, []filt{x, y, z})
+			}
+		}
+	}
+	for _, fs := range arrangements {
+		for _, ks := range [][]string{nil, {"a"}, {"b"}, {"a", "b"}, {"a", "a"}, {"b", "a"}} {
+			if !c.Mine() {
+				continue
+			}
+			visit(c, spec{List: "exit", Action: "always", Filters: fs, Syscalls: []string{"open"}, Keys: ks})
+		}
+	}
+	// (i) the same field twice with different (and with equal) values, for every field class
+	twice := [][3]string{{"uid", "0", "1000"}, {"auid", "1000", "unset"}, {"gid", "0", "5"}, {"pid", "1", "2"}, {"a0", "0x1", "0x2"}, {"exit", "0", "-EPERM"}, {"success", "0", "1"}, {"msgtype", "SYSCALL", "1302"},
+		{"perm", "r", "wa"}, {"perm", "x", "rwxa"}, {"filetype", "dir", "file"}, {"exe", "/bin/a", "/bin/b"}, {"subj_user", "u1", "u2"}, {"obj_type", "t1", "t2"}, {"arch", "b64", "b32"}, {"devmajor", "8", "9"}, {"inode", "1", "2"}, {"sessionid", "1", "2"}}
+	for _, t := range twice {
+		for _, vv := range [][2]string{{t[1], t[2]}, {t[2], t[1]}, {t[1], t[1]}} {
+			for _, mid := range [][]filt{nil, {{false, "dir", "=", "/etc"}}, {{false, "ppid", "=", "1"}}} {
+				if !c.Mine() {
+					continue
+				}
+				fs := append([]filt{{false, t[0], "=", vv[0]}}, mid...)
+				fs = append(fs, filt{false, t[0], "=", vv[1]})
+				visit(c, spec{List: "exit", Action: "always", Filters: fs, Syscalls: []string{"all"}, Keys: []string{"k"}})
+				visit(c, spec{List: "exit", Action: "never", Filters: append(append([]filt{}, mid...), fs[0], fs[len(fs)-1]), Keys: nil})
+			}
+		}
+	}
+	// (j) EVERY architecture name the tree knows x syscalls by number 0..600 (step 1 around every table's end,
+	// else 7) and a handful by name: ABIs without a table cannot resolve names, ABIs with one use THEIR numbers
+	var archNames []string
+	for _, n := range auparse.AuditArchNames {
+		archNames = append(archNames, n)
+	}
+	sort.Strings(archNames)
+	for _, a := range archNames {
+		for nr := 0; nr <= 600; nr++ {
+			if c.Tier != "thorough" && nr%7 != 0 && !(nr >= 330 && nr <= 470) {
+				continue
+			}
+			if !c.Mine() {
+				continue
+			}
+			visit(c, spec{List: "exit", Action: "always", Filters: []filt{{false, "arch", "=", a}}, Syscalls: []string{strconv.Itoa(nr)}})
+		}
+		for _, n := range []string{"open", "openat", "read", "write", "close", "execve", "connect", "getrlimit", "mmap", "exit", "memfd_secret", "openat2"} {
+			if !c.Mine() {
+				continue
+			}
+			visit(c, spec{List: "exit", Action: "always", Filters: []filt{{false, "arch", "=", a}}, Syscalls: []string{n}, Keys: []string{"k"}})
+		}
+	}
 }
 
 // ---- file watches -------------------------------------------------------------------------
@@ -561,10 +623,17 @@ func scratch() (dir string, cleanup func()) {
 	_ = os.Symlink(filepath.Join(dir, "lloop"), filepath.Join(dir, "lloop"))        // ELOOP
 	_ = os.Symlink(filepath.Join(dir, "f", "below"), filepath.Join(dir, "lnotdir")) // ENOTDIR
 	_ = os.Symlink("ld", filepath.Join(dir, "lld"))                                 // link to a link to a directory
+	// special files: a named pipe nobody writes to (a blocking open(2) of it never returns), a unix socket
+	_ = syscall.Mkfifo(filepath.Join(dir, "fifo"), 0o644)
+	_ = os.Symlink("fifo", filepath.Join(dir, "lfifo"))
+	if fd, err := syscall.Socket(syscall.AF_UNIX, syscall.SOCK_STREAM, 0); err == nil {
+		_ = syscall.Bind(fd, &syscall.SockaddrUnix{Name: filepath.Join(dir, "sock")})
+		_ = syscall.Close(fd)
+	}
 	return dir, func() { _ = os.RemoveAll(dir) }
 }
 
-var watchKinds = map[string]string{"file": "f", "dir": "d", "missing": "nope", "link-to-dir": "ld", "link-to-file": "lf", "dangling-link": "ldangling", "link-loop": "lloop", "link-below-file": "lnotdir", "link-to-link-to-dir": "lld"}
+var watchKinds = map[string]string{"file": "f", "dir": "d", "missing": "nope", "link-to-dir": "ld", "link-to-file": "lf", "dangling-link": "ldangling", "link-loop": "lloop", "link-below-file": "lnotdir", "link-to-link-to-dir": "lld", "fifo": "fifo", "link-to-fifo": "lfifo", "socket": "sock"}
 
 func watchIsDir(kind string) bool {
 	return kind == "dir" || kind == "link-to-dir" || kind == "link-to-link-to-dir"
